@@ -113,7 +113,7 @@ def no_pointer_identity(ck):
                 hits.append(("%s (field %s::%s)" % ((rec.get("file") or "").split("/src/")[-1], q.split("::")[-1], f_["name"]), f_["type"]))
     n = 0
     for f in F.fns.values():
-        if f.body is None or "/src/qtlogger/" not in (f.file or ""):
+        if f.body is None or not in_lib(f.file):
             continue
         n += 1
         for d in f.find(lambda x: x.get("k") == "decl"):
